@@ -6,6 +6,7 @@ import (
 	"strings"
 
 	schema "github.com/jsightapi/jsight-schema-core"
+	"github.com/jsightapi/jsight-schema-core/errs"
 	"github.com/jsightapi/jsight-schema-core/notations/jschema"
 	"github.com/jsightapi/jsight-schema-core/rules/enum"
 
@@ -222,6 +223,12 @@ func errCode(err error) int {
 	}
 	if c, ok := err.(coder); ok {
 		return c.ErrCode()
+	}
+	switch e := err.(type) {
+	case *errs.Err:
+		return int(e.Code())
+	case errs.Err:
+		return int(e.Code())
 	}
 	return -1
 }
